@@ -10,9 +10,14 @@
    Time is a global clock that advances to the earliest wake-up only when nobody can step at the current instant (the rule
    of the controlled runtime).  The source is a script of gaps and events chosen from a grid; items are numbered 1, 2, ...
    ReadNotTake = TRUE is the seeded mistake C16r5-b's core (the slot is read but not emptied by the flush on completion /
-   by the tick): TLC then shows an item delivered twice. *)
+   by the tick): TLC then shows an item delivered twice.
+   Feedback = TRUE adds a feedback consumer: the subscriber's callback for item 1 pushes one more item (FB) into the source, from the
+   worker thread, i.e. it stores into the slot while the worker is handing item 1 on.  HoldLockWhileDelivering = TRUE is the seeded
+   mistake C15r12-a (`if let Some(v) = slot.write().take() { sink_next(v) }` keeps the guard alive across the call): the store
+   blocks on the lock its own thread holds and the worker never moves again (NeverStuck, ExitWithinOnePeriod). *)
 EXTENDS Integers, Sequences, FiniteSets, TLC
-CONSTANTS D, Gaps, MaxEvents, ReadNotTake
+CONSTANTS D, Gaps, MaxEvents, ReadNotTake, Feedback, HoldLockWhileDelivering
+FB == 100
 Kinds == {"n", "c", "u"}
 ScriptSpace == UNION { [1..n -> Gaps \X Kinds] : n \in 1..MaxEvents }
 VARIABLES script, ip, now, srcWake, nextItem,
@@ -47,10 +52,12 @@ SrcSkip ==
 \* the worker wakes: takes the slot, delivers, and either sleeps again or (subscription over) exits
 WorkerStep ==
   /\ wState = "sleeping" /\ wWake = now
-  /\ slot' = IF ReadNotTake THEN slot ELSE 0
-  /\ out' = IF slot # 0 /\ subscribed THEN Append(out, <<now, "n", slot>>) ELSE out
-  /\ IF subscribed THEN /\ wWake' = now + D /\ UNCHANGED <<wState, exitAt>>
-     ELSE /\ wState' = "exited" /\ exitAt' = now /\ UNCHANGED wWake
+  /\ LET fed == Feedback /\ slot = 1 /\ subscribed IN          \* the callback for item 1 stores FB into the slot (source observer, worker thread)
+     /\ slot' = IF fed /\ ~HoldLockWhileDelivering THEN FB ELSE IF ReadNotTake THEN slot ELSE 0
+     /\ out' = IF slot # 0 /\ subscribed THEN Append(out, <<now, "n", slot>>) ELSE out
+     /\ IF fed /\ HoldLockWhileDelivering THEN /\ wState' = "stuck" /\ UNCHANGED <<wWake, exitAt>>      \* blocked on its own write lock, for ever
+        ELSE IF subscribed THEN /\ wWake' = now + D /\ UNCHANGED <<wState, exitAt>>
+        ELSE /\ wState' = "exited" /\ exitAt' = now /\ UNCHANGED wWake
   /\ UNCHANGED <<script, ip, now, srcWake, nextItem, subscribed, ended>>
 CanStepNow == (~SrcDone /\ srcWake = now) \/ (wState = "sleeping" /\ wWake = now)
 Wakes == (IF wState = "sleeping" THEN {wWake} ELSE {}) \cup (IF SrcDone THEN {} ELSE {srcWake})
@@ -64,8 +71,9 @@ Spec == Init /\ [][Next]_vars /\ WF_vars(SrcStep \/ SrcSkip \/ WorkerStep \/ Tic
 
 Items == SelectSeq(out, LAMBDA e : e[2] = "n")
 \* C16: only items the source emitted (numbers below nextItem), in source order, none twice
-OnlyEmitted == \A i \in 1..Len(Items) : Items[i][3] \in 1..(nextItem - 1)
-InOrderNoneTwice == \A i, j \in 1..Len(Items) : i < j => Items[i][3] < Items[j][3]
+OnlyEmitted == \A i \in 1..Len(Items) : Items[i][3] \in 1..(nextItem - 1) \cup (IF Feedback THEN {FB} ELSE {})
+NeverStuck == wState # "stuck"
+InOrderNoneTwice == \A i, j \in 1..Len(Items) : i < j => (Items[i][3] # Items[j][3] /\ (Items[i][3] # FB /\ Items[j][3] # FB => Items[i][3] < Items[j][3]))
 NothingAfterEnd == \A i \in 1..Len(out) : ended # -1 => out[i][1] <= ended
 \* C15: the worker exits within one period of the end
 ExitWithinOnePeriod == exitAt # -1 => exitAt <= ended + D
